@@ -324,8 +324,16 @@ func (f *Fn) IsCall(call *ast.CallExpr, keys ...string) bool {
 // f are searched as well.
 func (f *Fn) Calls(deep bool, pred func(call *ast.CallExpr) bool) []*ast.CallExpr {
 	var out []*ast.CallExpr
+	// a literal that is invoked on the spot (`func() error {...}()`, the shape an inlined
+	// helper takes) is part of the function's own straight-line code
+	iife := map[*ast.FuncLit]bool{}
 	ast.Inspect(f.Body, func(n ast.Node) bool {
-		if l, ok := n.(*ast.FuncLit); ok && l != f.Lit && !deep {
+		if call, ok := n.(*ast.CallExpr); ok {
+			if l, ok := ast.Unparen(call.Fun).(*ast.FuncLit); ok {
+				iife[l] = true
+			}
+		}
+		if l, ok := n.(*ast.FuncLit); ok && l != f.Lit && !deep && !iife[l] {
 			return false
 		}
 		if call, ok := n.(*ast.CallExpr); ok && pred(call) {
